@@ -198,7 +198,7 @@ fn exhaustive(ctx: &Ctx) {
     ctx.exhaustive_space(&format!("all set/get sequences of length <={} over 3 keys x 2 hosts x 3 sizes (24 operations per step), for (limit 10, sizes {{0,6,10}}, time 60), (limit 10, sizes {{3,4,5}}, time 1), (limit 7, sizes {{0,7,4}}, time 0)", max_len));
 }
 
-fn arb_seq() -> impl Strategy<Value = SeqCase> {
+pub fn arb_seq() -> impl Strategy<Value = SeqCase> {
     (prop_oneof![Just(0usize), Just(1), Just(100), Just(1000), Just(65536), 2usize..70000], prop_oneof![Just(0usize), Just(1), Just(60)]).prop_flat_map(|(limit, tl)| {
         let op = prop_oneof![
             3 => (0u8..32, 0u8..3, prop_oneof![2 => 0usize..=limit, 1 => Just(limit), 1 => Just((limit / 2 + 1).min(limit)), 1 => Just(0usize)]).prop_map(|(key, host, size)| Op::Set { key, host, size }),
